@@ -11,7 +11,8 @@ THEOREMS = ["Momtrop.C20.add_get", "Momtrop.C20.add_length", "Momtrop.C20.sub_ge
             "Momtrop.C20.dot_cons", "Momtrop.C20.dot_eq_range_fold", "Momtrop.C20.dot_comm"]
 RULE = ("vector ops for D=1..8 with components drawn from {random finite, +-0, subnormal, +-max, overflowing, "
         "inf, NaN} and every f64 MomTropFloat method on random and special arguments; a case is non-trivial "
-        "when an operand is a special value or D>=2; distinct = distinct request")
+        "when an operand is a special value or D>=2; distinct = distinct request"
+        " Also: signed-zero corpus (bit comparisons distinguish +0.0 from -0.0), fixed corpus of scalar arguments (powf at -0.0 and integral/half-integral exponents, exp near the underflow boundary, inv of subnormals), wrong-length constructor input, operand roles with a left-tagged scalar type.")
 ASSUMPTIONS = ["oracle for transcendental f64 methods is numpy/libm within 2 ulp; + - * / sqrt, from_isize, inv are compared exactly"]
 
 SPECIAL = [0.0, -0.0, 5e-324, -5e-324, 2.2250738585072014e-308, 1.7976931348623157e308, -1.7976931348623157e308,
@@ -116,6 +117,21 @@ def run(ctx):
         c = rng.random()
         n = rng.randint(-10, 10) if c < 0.3 else rng.randint(-2**53, 2**53) if c < 0.6 else rng.randint(-2**63, 2**63 - 1)
         reqs.append({"op": "f64", "fn": fn, "x": f2b(x), "y": f2b(y), "n": n})
+    # vectors whose components are all equal (zero shifts, unit vectors, ...): every partial sum is still rounded in turn
+    for D in range(1, 9):
+        for fn in ["squared", "dot", "add", "muls"]:
+            for _ in range(12 if ctx.quick else 80):
+                v = rng.choice([rng.uniform(-3, 3), 0.1 * rng.randint(1, 40), 1.0 / rng.randint(3, 19)])
+                w = v if fn != "dot" or rng.random() < 0.5 else rng.uniform(-3, 3)
+                reqs.append({"op": "vec", "fn": fn, "D": D, "a": [f2b(v)] * D, "b": [f2b(w)] * D, "s": f2b(rng.uniform(-3, 3))})
+    # powf at the exponents the sampler uses most (D/2 and 1/omega: 2, 1, 3, 0.5, 1.5, 4, ...) on many ordinary bases: x^2 is NOT x*x
+    # in the last bit for the platform's pow, so a special case for an exponent shows on a fraction of a percent of the bases
+    for y in (2.0,) * 12 + (3.0, 3.0, 4.0, 4.0, 0.5, 1.5, 1.0, -1.0, -2.0, 2.5):
+        for _ in range(700 if ctx.quick else 6000):
+            reqs.append({"op": "f64", "fn": "powf", "x": f2b(rng.uniform(0, 10) if rng.random() < 0.8 else 10.0 ** rng.uniform(-20, 20)), "y": f2b(y), "n": 0})
+    # exp just below the overflow threshold ln(f64::MAX) = 709.7827...
+    for _ in range(40 if ctx.quick else 400):
+        reqs.append({"op": "f64", "fn": "exp", "x": f2b(rng.uniform(700.0, 709.78) * rng.choice([1, 1, -1])), "y": f2b(0.0), "n": 0})
     # fixed corpus of scalar arguments at which shortcuts and "guards" differ from the standard library
     for fn, xs_, ys_ in (("powf", [0.0, -0.0, 1.0, -1.0, 2.0, 4.0, 0.25, 1e-300, 1e300, float("inf"), float("-inf")],
                           [0.5, -0.5, 2.0, -2.0, 3.0, 4.0, -4.0, 1.0, 0.0, 1.5, 0.25, 1 / 3, 1e-3]),
